@@ -21,7 +21,7 @@ VariantFields(items, en, v) == UNION { UNION { Range(items[i].variants[j].fields
 Mentions(f, p) == p \in Range(f.paths)
 
 TgtSites == {"direct", "opt", "nul", "arr", "tup", "mapv"}
-NumSites == {"num", "numarr", "numopt", "nummap", "numtup"}
+NumSites == {"num", "numarr", "numopt", "nummap", "numtup", "numdesc", "numdescarr"}
 
 (* the type that must stand for Tgt at every use *)
 UsesEverywhere(items, ty, old) ==
@@ -61,7 +61,7 @@ MapOK(items, m) ==
 C14_Syntactic(s, items) ==
     IF s.replace /\ ~ReplaceOK(items) THEN "C14/ReplacementNotAppliedEverywhere"
     ELSE IF s.patch /\ ~PatchOK(items) THEN "C14/PatchNotAppliedEverywhere"
-    ELSE IF s.convert /\ ~ConvertOK(items) THEN "C14/ConversionNotAppliedEverywhere"
+    ELSE IF s.convert # "none" /\ ~ConvertOK(items) THEN "C14/ConversionNotAppliedEverywhere"
     ELSE IF s.derive /\ ~DeriveOK(items) THEN "C14/GlobalDeriveMissing"
     ELSE IF ~MapOK(items, s.map) THEN "C14/MapTypeNotAppliedEverywhere"
     ELSE "ok"
